@@ -467,6 +467,7 @@ def plan(tier, seed):
     for first in ("TagLine", "Comment", "Empty"):
         specs.append({"family": "long_windows", "first": first, "seed": seed, "n": 1})
     specs += shards("interleaved", 60 if q else 2400, 20 if q else 200, seed)
+    specs += shards("other_default", 400 if q else 16000, 100 if q else 2000, seed)
     specs.append({"family": "corpus", "seed": seed, "n": 1})
     specs.append({"family": "w0", "seed": seed, "n": 1})
     return specs
@@ -579,6 +580,21 @@ def run_shard(spec, M):
                                              "text": short(text, 300), "real": [o.status, o.err_messages()[:2]], "sim": [sim["accepted"], sim["errors"][:2]]}, case)
                 apply_parse_monitors(o, M, case, {"G4"})
                 cover_transitions(o, M)
+    elif fam == "other_default":
+        # a matcher whose default dialect is NOT the document's: the '# language:' header (also a header that names English)
+        # decides; acceptance and nesting as for any other document
+        from gherkin.token_matcher import TokenMatcher as _TM
+        defaults = ["fr", "no", "de", "ja", "ru", "em", "en-lol", "ht"]
+        for i in range(spec["start"], spec["start"] + spec["n"]):
+            d0 = defaults[i % len(defaults)]
+            kw = {"dialect": "en"} if i % 2 == 0 else {}
+            R = doccheck.make_doc(spec["seed"], "C02d", i, default_dialect=d0, **kw)
+            if R.dialect == d0:
+                continue
+            o = observe.parse_observed(R.text, matcher=_TM(d0))
+            M.case(h64([d0, R.text]))
+            M.count("parses_with_another_default_dialect")
+            check_doc_vs_grammar(R, o, M, {"kind": "other_default", "default": d0, "text": R.text})
     elif fam == "interleaved":
         # several Parser objects at work at the same time (own threads, turns taken at token fetches, no matcher passed):
         # whether a document is accepted is a matter of that document alone
@@ -649,6 +665,12 @@ def replay(case, M):
         check_text_seq(case["idxs"], M)
     elif k == "shard":
         run_shard(case["spec"], M)
+    elif k == "other_default":
+        from gherkin.token_matcher import TokenMatcher as _TM
+        o = observe.parse_observed(case["text"], matcher=_TM(case["default"]))
+        apply_parse_monitors(o, M, case, {"G4"})
+        if o.status != "ok":
+            M.violation("C02.acceptance", {"what": "replay: document rejected by a matcher with another default dialect", "errors": o.err_messages()[:2]}, case)
     elif k == "interleaved":
         from . import c15
         import random as _random
